@@ -256,6 +256,30 @@ void runVariant(const Json::Value& sc, const std::string& variant, Json::Value& 
     for (auto& p : sc["rm_at_kill"]["paths"]) vk::g_w.rmPaths.push_back(p.asString());
   }
 
+  if (sc.isMember("swap_at_kill")) {
+    // mid-run replacement of a cgroup: the directory oomd holds an fd of moves out of the tree (the fd keeps naming it), a
+    // stranger with the same child names and other pids sits at its path from then on
+    const Json::Value& sw = sc["swap_at_kill"];
+    for (auto& p : sw["pids"]) vk::g_w.swapPids.insert(p.asString());
+    std::string rel = sw["path"].asString();
+    Json::Value stranger = sw["stranger"];
+    vk::g_w.swapFn = [rel, stranger] {
+      const std::string& root = vk::g_w.root;
+      std::string away = root + ".away";
+      if (::rename((root + "/" + rel).c_str(), away.c_str()) != 0) return;
+      std::string awayRel = "../" + away.substr(away.rfind('/') + 1);
+      for (auto& kv : vk::g_w.id2path)
+        if (kv.second == rel || kv.second.compare(0, rel.size() + 1, rel + "/") == 0) kv.second = awayRel + kv.second.substr(rel.size());
+      materializeTree(root + "/" + rel, stranger);
+      std::function<void(const std::string&, const Json::Value&)> idx = [&](const std::string& dir, const Json::Value& n) {
+        struct stat st;
+        if (n.isMember("id") && ::stat(dir.c_str(), &st) == 0) vk::g_w.ino2id[st.st_ino] = n["id"].asInt();
+        for (const auto& ch : n["children"]) idx(dir + "/" + ch["name"].asString(), ch);
+      };
+      idx(root + "/" + rel, stranger);
+    };
+  }
+
   // the plugin, as ConfigCompiler::compilePlugin makes it
   PluginConstructionContext pcc(vk::g_w.root);
   std::string pname = sc["cfg"]["plugin"].asString();
@@ -379,6 +403,8 @@ void runVariant(const Json::Value& sc, const std::string& variant, Json::Value& 
   run["outcome"] = worst;
   plugin.reset();
   g_hooks.clear();
+  run["swapped"] = vk::g_w.swapped;
+  vh::rmrf(vk::g_w.root + ".away");
   vh::rmrf(vk::g_w.root);
   vk::g_w.root.clear();
 }
